@@ -30,7 +30,7 @@ RULE = (
 )
 ASSUMPTIONS = ["probe outcomes are compared on canonical forms (results, tree forms with positions, error type/position/number of recorded errors)"]
 
-OPS = ["ps", "pn", "pr", "pa", "pg", "bl", "bs", "bg", "bgs", "bf", "bfa", "bfi", "ng", "ngbad"]
+OPS = ["ps", "pn", "pr", "pa", "pg", "bl", "bs", "bg", "bgs", "bo", "bo", "bf", "bfa", "bfi", "ng", "ngbad"]
 
 
 class Boom(Exception):
@@ -55,13 +55,15 @@ def required(tier):
 class World:
     """One Grammar object, its subject parsers and the switches for faults."""
 
-    def __init__(self, g, text, layout):
+    def __init__(self, g, text, layout, build_subjects=True):
         self.g = g
         self.text = text
         self.flags = {"action": False, "recognizer": False}
         self.pg = self.make_grammar()
         self.actions = self.make_actions()
         self.subjects = {}
+        if not build_subjects:
+            return
         self.subjects["lr"] = pgx.lr(self.pg, actions=self.actions)
         self.subjects["lr_rec"] = pgx.lr(self.pg, actions=self.actions, build_tree=True, error_recovery=True)
         self.subjects["glr"] = pgx.glr(self.pg, actions=self.actions)
@@ -98,6 +100,41 @@ class World:
             return act
 
         return {n: mk(n) for n in self.g.nts}
+
+
+LATE = [
+    ("late_lr", "lr", "Parser", {}),
+    ("late_glr", "glr", "GLRParser", {}),
+    ("late_glr_ps", "glr", "GLRParser", {"prefer_shifts": True, "prefer_shifts_over_empty": True}),
+    ("late_lr_nold", "lr", "Parser", {"lexical_disambiguation": False}),
+    ("late_glr_ld", "glr", "GLRParser", {"lexical_disambiguation": True}),
+]
+
+
+def build_with(pg, actions, cls, kw):
+    kw = dict(kw)
+    if kw.get("tables") == "SLR":
+        kw["tables"] = pgx.SLR
+    elif "tables" in kw:
+        kw["tables"] = pgx.LALR
+    return pgx.lr(pg, actions=actions, **kw) if cls == "Parser" else pgx.glr(pg, actions=actions, **kw)
+
+
+def late_probes(w, probes):
+    """Parsers built from the same Grammar object *after* the history."""
+    out = {}
+    for name, kind, cls, kw in LATE:
+        try:
+            p = build_with(w.pg, w.actions, cls, kw)
+        except (pgx.CaseTimeout, pgx.BudgetExceeded):
+            raise
+        except Exception as e:  # noqa: BLE001
+            for x in probes:
+                out["%s|%s" % (name, x)] = ["ctor", type(e).__name__]
+            continue
+        for x in probes:
+            out["%s|%s" % (name, x)] = canon(kind, p, x)
+    return out
 
 
 def canon(kind, parser, inp):
@@ -144,7 +181,7 @@ def run(ctx):
     mon.install()
     try:
         n = 0
-        for name, g, alphabet in glrwork.grammar_stream(ctx, acyclic=True, overlap_share=0.0, eps_weights=(1, 1, 2)):
+        for name, g, alphabet in glrwork.grammar_stream(ctx, acyclic=True, overlap_share=0.3, eps_weights=(1, 1, 2)):
             if not ctx.more():
                 break
             n += 1
@@ -189,6 +226,26 @@ def one_grammar(ctx, g, alphabet, n):
                 arg = rng.choice(nons) if rng.random() < 0.8 else glrwork.relayout(rng.choice(nons), rng)
             elif op == "bfi":
                 arg = rng.randint(1, 6)
+            elif op == "bo":
+                kw = {}
+                for k in ("prefer_shifts", "prefer_shifts_over_empty", "lexical_disambiguation"):
+                    v = rng.choice([None, True, False])
+                    if v is not None:
+                        kw[k] = v
+                if rng.random() < 0.3:
+                    kw["tables"] = "SLR"
+                arg = [rng.choice(["Parser", "GLRParser"]), kw]
+                if rng.random() < 0.5:
+                    # configurations that share table options with other parsers but differ in the scanner options
+                    arg = rng.choice(
+                        [
+                            ["Parser", {"prefer_shifts": False, "prefer_shifts_over_empty": False}],
+                            ["GLRParser", {"prefer_shifts": True, "prefer_shifts_over_empty": True}],
+                            ["GLRParser", {"lexical_disambiguation": True}],
+                            ["Parser", {"lexical_disambiguation": False}],
+                            ["GLRParser", {"tables": "SLR", "lexical_disambiguation": True}],
+                        ]
+                    )
             ops.append([op, arg, rng.choice(["lr", "lr_rec", "glr"])])
         probes = rng.sample(sentences, min(3, len(sentences))) + rng.sample(nons, min(3, len(nons)))
         hist = {"grammar": text, "g": g.to_json(), "layout": layout, "ops": ops, "probes": probes}
@@ -261,6 +318,13 @@ def execute(ctx, hist, judge_state):
                 raise
             except Exception:  # noqa: BLE001
                 pass
+        elif op == "bo":
+            try:
+                build_with(pg, w.actions, arg[0], arg[1])
+            except (pgx.CaseTimeout, pgx.BudgetExceeded):
+                raise
+            except Exception:  # noqa: BLE001
+                pass
         elif op == "bf":
             try:
                 pgx.lr(pg, actions=w.actions, prefer_shifts=False, prefer_shifts_over_empty=False, tables=pgx.SLR)
@@ -311,6 +375,7 @@ def execute(ctx, hist, judge_state):
     for subj in ("lr", "lr_rec", "glr"):
         for x in hist["probes"]:
             out["%s|%s" % (subj, x)] = canon(subj, w.subjects[subj], x)
+    out.update(late_probes(w, hist["probes"]))
     return out
 
 
@@ -345,6 +410,21 @@ def fresh_outcomes(hist):
         for x in hist["probes"]:
             w = World(g, hist["grammar"], hist["layout"])
             out["%s|%s" % (subj, x)] = canon(subj, w.subjects[subj], x)
+    # every late parser from its own fresh Grammar object
+    for entry in LATE:
+        # a Grammar object nothing else was ever built from
+        w = World(g, hist["grammar"], hist["layout"], build_subjects=False)
+        name, kind, cls, kw = entry
+        try:
+            p = build_with(w.pg, w.actions, cls, kw)
+        except (pgx.CaseTimeout, pgx.BudgetExceeded):
+            raise
+        except Exception as e:  # noqa: BLE001
+            for x in hist["probes"]:
+                out["%s|%s" % (name, x)] = ["ctor", type(e).__name__]
+            continue
+        for x in hist["probes"]:
+            out["%s|%s" % (name, x)] = canon(kind, p, x)
     return out
 
 
